@@ -65,6 +65,27 @@ Theorem C13_txindex_disconnect_after_connect_succeeds : forall b (m : N -> optio
 Proof. exact txidx_disconnect_after_connect_ok. Qed.
 Print Assumptions C13_txindex_disconnect_after_connect_succeeds.
 
+(* Progress, per-address index part: UtxoIndex.ConnectBlock and
+   UtxoIndex.DisconnectBlock fail only through FetchTx (unknown referenced
+   transaction) or an out-of-range output index.  When every input of every
+   non-coinbase transaction of the block resolves ([refs_resolved], which is
+   what GetTxReference in the context check establishes: C13_refs_known_resolved),
+   both return Ok over ANY index contents. *)
+Theorem C13_addr_index_connect_succeeds : forall fetch db b,
+  refs_resolved fetch b -> exists ad, utxo_connect fetch db b = Ok ad.
+Proof. exact utxo_connect_ok. Qed.
+Theorem C13_addr_index_disconnect_succeeds : forall fetch db b,
+  refs_resolved fetch b -> exists ad, utxo_disconnect fetch db b = Ok ad.
+Proof. exact utxo_disconnect_ok. Qed.
+Theorem C13_refs_known_resolved : forall (s : state) b,
+  (forall t, In t (b_txs b) -> t_cb t = false -> refs_known s t = true) ->
+  (forall t, In t (b_txs b) -> s_txidx s (t_id t) = None) ->
+  refs_resolved (txidx_connect (s_txidx s) b) b.
+Proof. exact refs_known_resolved. Qed.
+Print Assumptions C13_addr_index_connect_succeeds.
+Print Assumptions C13_addr_index_disconnect_succeeds.
+Print Assumptions C13_refs_known_resolved.
+
 (* ---------------------------------------------------------------- witnesses *)
 Definition x_cb (id lock : N) := mkTx id true lock [] [mkOut 0 30; mkOut 1 35; mkOut 0 35]%Z SNone.
 Definition x_g  := mkBlock 1 0 0 [mkTx 1 true 0 [] [mkOut 0 1000]%Z SNone].
